@@ -16,7 +16,9 @@ EXPLANATION = (
     "on the resume branch; publish() is honoured while CONNECTING in publisher-capable profiles; Y-EXEMPT - for every registry "
     "that can be entered before the CONNACK, the resume and purge loops touch an entry only under the test that marks it "
     "as carried over (alarm cleared by the loss path), so what was requested on the new connection before its CONNACK is "
-    "neither failed nor re-sent. NOT decided: the release of held-back messages as the window allows.")
+    "neither failed nor re-sent; Y-CARRY - that test is 'alarm is None', so the loss path must cancel and reset the alarm "
+    "of every entry of each such registry on every path (no early exit from the loop, no skipped entry). NOT decided: the "
+    "release of held-back messages as the window allows.")
 ASSUMPTIONS = []
 
 PUB_REGS = ["queuePublishTx", "windowPublish", "windowPubRelease"]
@@ -96,6 +98,7 @@ def check(ctx):
                    function=resent[0].func if resent else "", construct="connack-clean/resend", nontrivial=False,
                    msg="a carried-over request is written on the clean branch")
         # Y-EXEMPT: what was requested on this very connection before its CONNACK is neither failed nor re-sent
+        carried_regs = set()
         for tr in lc.connack_ok:
             for reg in PUB_REGS + ["windowSubscribe", "windowUnsubscribe"]:
                 if not lc.reg_in(reg, "CONNECTING"):
@@ -119,6 +122,8 @@ def check(ctx):
                                 carried = True
                             if isinstance(t, tuple) and t[0] == "attr" and t[2] == "alarm" and isinstance(t[1], tuple) and t[1][:2] == ("elem", reg) and pol is False:
                                 carried = True
+                        if carried:
+                            carried_regs.add(reg)
                         ctx.ob("Y-EXEMPT", "%s CONNACK %s only touches carried-over entries of %s" % (cq, "purge" if tr in lc.ack_clean else "resume", reg),
                                carried, where=where(touched[0]), function=touched[0].func,
                                construct="connack-%s/not-exempt/%s" % ("clean" if tr in lc.ack_clean else "persistent", reg),
@@ -128,6 +133,17 @@ def check(ctx):
                                        reg, "purge" if tr in lc.ack_clean else "resume",
                                        "failed with MQTTSessionCleared" if tr in lc.ack_clean else "written a second time with DUP=1"),
                                trigger=tr.label())
+        # Y-CARRY: the carried-over test is "alarm is None", so the loss path must leave the alarm of EVERY entry None
+        # (cancelled and cleared); an entry it skips keeps a non-None alarm and is never re-sent / purged by the next CONNACK
+        for reg in sorted(carried_regs):
+            okc, okl = lc.loss_cancels(reg), lc.loss_clears(reg)
+            fnc = lc.loss[0].entry.func if lc.loss else None
+            ctx.ob("Y-CARRY", "%s the loss path clears the alarm of every entry of %s (what marks it as carried over)" % (cq, reg), okc and okl,
+                   where="%s:%d" % (fnc.file, fnc.node.lineno) if fnc else cls.module.path, function=fnc.qual if fnc else "",
+                   construct="loss/alarm-not-cleared/%s" % reg,
+                   msg="the CONNACK code recognises carried-over entries of %s by alarm is None, but the loss path does not %s the alarm of every "
+                       "entry on every path (early exit from the loop, or a skipped entry): such a request is taken for one made on the new "
+                       "connection and is never re-sent (persistent session) or purged (clean session)" % (reg, "cancel" if not okc else "reset to None"))
         # resume / purge code only reachable from an accepted CONNACK (and the purge also from the loss path)
         for tr in contexts(cat):
             if tr in lc.connack_ok or tr.kind == "LOSS":
